@@ -1642,8 +1642,13 @@ def c16_cases(tier, seed):
                 "raw_initial": rng.choice([False, False, False, "ce", "lraw", "vtime", "strip", "raw"])}
         if panic_at:
             meta["helper_panic_at"] = panic_at
-        if rng.random() < 0.08:
+        r9 = rng.random()
+        if r9 < 0.08:
             meta["stdout_full"] = 1        # standard output refuses every byte: each read ends with an I/O error, the terminal restored
+        elif r9 < 0.16:
+            meta["stdout_close_after"] = rng.choice([1, 8, 12, 20, 40])    # ... or is a pipe whose reader goes away after a few bytes
+        elif r9 < 0.30:
+            meta["stdin_ro"] = 1           # standard input is the terminal opened read-only
         c = Case(keys, mode=mode, timeout=0, prompt="> ", reads=nreads * 3, chunks=chunks, helper=True, validator="script",
                  cands=["abc", "abd"], meta=meta)
         cases.append(c)
@@ -1705,8 +1710,8 @@ def c16_corr(res, exe, driver, tier, seed, tmp):
             out = raw["out"][prev_out:st["out_mark"]]
             prev_out = st["out_mark"]
             on, off = out.rfind(PON), out.rfind(POFF)
-            if c.meta.get("stdout_full"):
-                pass        # nothing reaches the terminal: only the settings are judged
+            if c.meta.get("stdout_full") or c.meta.get("stdout_close_after"):
+                pass        # nothing (or only a beginning) reaches the terminal: only the settings are judged
             elif c.meta["paste"]:
                 if on < 0 or off < on:
                     res.oracle_failures.append({"stream": "rawmode", "case": line, "keys": c.keys, "meta": dict(c.meta),
@@ -1728,7 +1733,7 @@ def c16_corr(res, exe, driver, tier, seed, tmp):
                 "suspend key C-z (signals option off: rustyline restores the terminal, signals itself, re-enters raw mode); emacs and vi; "
                 "bracketed paste on/off; the signals option on/off; the terminal initially cooked, without canonical mode and echo, "
                 "raw, raw with VMIN 0 / VTIME 5, with only the four local flags off that raw mode clears (input flags cooked), or "
-                "cooked with ISTRIP / INPCK on; in some scripts standard output is /dev/full (every write fails, every read ends with an I/O error). The child stops itself "
+                "cooked with ISTRIP / INPCK on; in some scripts standard output is /dev/full (every write fails, every read ends with an I/O error) or a pipe whose reader goes away after a few bytes (writes fail later), in some standard input is the terminal opened read-only. The child stops itself "
                 "(SIGSTOP) after every read; the driver then reads the terminal settings with tcgetattr, compares them field by field "
                 "(flags, speeds, all control characters) with those in force before that read, checks that the last ESC[?2004h of the "
                 "read's output is followed by ESC[?2004l, and switches the terminal to one of those modes before resuming (so a later read "
